@@ -8,3 +8,7 @@ import RedactVerif.Model.Writer
 import RedactVerif.Model.Format
 import RedactVerif.Props.C01
 import RedactVerif.Props.C03
+import RedactVerif.Props.C07
+import RedactVerif.Props.C10
+import RedactVerif.Props.C13
+import RedactVerif.Props.C14
